@@ -139,7 +139,8 @@ def optimal(
             count_item_in_bin = int(counts[iitem][ibin].x)
             for _ in range(count_item_in_bin):
                 binner.add_item_to_bin(output, items[iitem], ibin)
-    binner.sort_by_ascending_sum(output)
+    if len(set(weights))<=1:   # with different weights, bin i is the one whose sum was divided by weights[i]: sorting by the raw sums would detach the bins from their weights.
+        binner.sort_by_ascending_sum(output)
     return output
 
 
